@@ -4,7 +4,7 @@
    lists of values on the grid. *)
 From Coq Require Import List Reals QArith.
 From FDAV Require Import Base.Num Base.Vec Base.Quad Model.Simpson Lemmas.Vec Lemmas.Quad Lemmas.Gram Lemmas.Simpson.
-From FDAV Require Import Gen.TrapzWeights Lemmas.GenTrapzWeights.
+From FDAV Require Import Gen.TrapzWeights Lemmas.GenTrapzWeights Lemmas.TrapzGrid.
 Import ListNotations.
 Local Open Scope R_scope.
 
@@ -113,6 +113,15 @@ Proof. exact gram_sum_psd. Qed.
 Print Assumptions C08_gram_sum_psd.
 
 (* non-vacuity on a non-uniform 4-point grid *)
+(* the grid in other units (seconds / nanoseconds, days / years): the integral, the inner product and the squared norm scale
+   with the unit of the abscissa, for every factor *)
+Theorem C08_trapz_grid_units : forall c x y, trapz opsR (vscale opsR c x) y = c * trapz opsR x y.
+Proof. exact trapz_grid_scale. Qed.
+Print Assumptions C08_trapz_grid_units.
+Theorem C08_inner_grid_units : forall c x f g, inner opsR (vscale opsR c x) f g = c * inner opsR x f g.
+Proof. exact inner_grid_scale. Qed.
+Print Assumptions C08_inner_grid_units.
+
 (* ---------- the quadrature weights as TRANSLATED from /repo/FDApy/misc/utils.py on this run (Gen/TrapzWeights.v) ----------
    _integration_weights(x, method="trapz"), as the source reads now, is the weight vector of the trapezoid rule:
    integration agrees with the source's own quadrature weights, for every grid with at least two points. *)
